@@ -581,6 +581,9 @@ pub fn run(ctx: &Ctx) -> Report {
         })
         .reduce(Acc::default, |a, b| a.merge(b));
     let mut acc = acc_a.merge(acc_b).merge(acc_b2).merge(acc_c).merge(acc_d0).merge(acc_d).merge(acc_e);
+    // (g) the parser family (parse, iterate, validate, typed extraction, Display / Debug, policing of sealed,
+    // corrupted, truncated and foreign buffers) under per-call-site tracing filters (callsites.rs)
+    crate::teardown::callsite_sweep(P, "parser", &mut acc);
     let mut smallest_ok: Option<usize> = None;
     for (kib, h) in probes {
         let a = h.join().unwrap_or_default();
